@@ -19,15 +19,16 @@ Import ListNotations.
 Require Import NV.C25.Model NV.C25.ProofsBase NV.C25.Proofs.
 
 (* Resume equivalence for BOTH save strategies ("all" and "latest"): for every step / history
-   update function, every number of iterations, every number of samples per iteration (>= 1
-   residual), every initial directory without a marker, a first run with resume=False or True,
+   update function, every number of iterations, every number of samples per iteration (a state
+   without residuals is a MAP iteration, n_samples = 0), every fresh_stochasticity pattern that is
+   True for iteration 0, every initial directory without a marker, a first run with resume=False or True,
    and EVERY finite sequence of crash points (also crashes of restarted runs): the final restart
    with resume=True does not raise and returns the (mean, samples) of the uninterrupted run. *)
 Theorem C25_resume_equiv :
   forall (M R E H Seed : Type) (step : nat -> Seed -> St M R -> St M R) (estep : nat -> St M R -> E -> E)
          (hstep : nat -> St M R -> H -> H) (init : St M R) (e0 : E) (h0 : H)
          (raw : nat -> Seed) (fresh : nat -> bool) (sg : strategy),
-    (forall i sd st, snd (step i sd st) <> []) -> fresh 0 = true ->
+    fresh 0 = true ->
     forall (n : nat) (r0 : bool) (cps : list (nat * bool)) (d0 : disk M R E H),
       lookup M R E H Marker d0 = None ->
       snd (run M R E H Seed step estep hstep init e0 h0 raw fresh fixed_proto sg true n
@@ -40,7 +41,7 @@ Theorem C25_uninterrupted :
   forall (M R E H Seed : Type) (step : nat -> Seed -> St M R -> St M R) (estep : nat -> St M R -> E -> E)
          (hstep : nat -> St M R -> H -> H) (init : St M R) (e0 : E) (h0 : H)
          (raw : nat -> Seed) (fresh : nat -> bool) (sg : strategy),
-    (forall i sd st, snd (step i sd st) <> []) -> fresh 0 = true ->
+    fresh 0 = true ->
     forall (n : nat) (r : bool) (d0 : disk M R E H),
       lookup M R E H Marker d0 = None ->
       snd (run M R E H Seed step estep hstep init e0 h0 raw fresh fixed_proto sg r n d0)
@@ -56,7 +57,7 @@ Theorem C25_disk_invariant :
   forall (M R E H Seed : Type) (step : nat -> Seed -> St M R -> St M R) (estep : nat -> St M R -> E -> E)
          (hstep : nat -> St M R -> H -> H) (init : St M R) (e0 : E) (h0 : H)
          (raw : nat -> Seed) (fresh : nat -> bool) (sg : strategy),
-    (forall i sd st, snd (step i sd st) <> []) -> fresh 0 = true ->
+    fresh 0 = true ->
     forall (n : nat) (r0 : bool) (cps : list (nat * bool)) (d0 : disk M R E H),
       lookup M R E H Marker d0 = None ->
       good M R E H Seed step estep hstep init e0 h0 raw fresh sg n
